@@ -67,6 +67,10 @@ pub struct CliCase {
     /// (real threads for -t N: uncontrolled; covers the dispatch in bin/bigtools.rs)
     #[serde(default)]
     pub via_binary: bool,
+    /// the forward conversion reads its text from standard input (0 = from the file; 1 = `-`, 2 = `stdin`,
+    /// 3 = `/dev/stdin`): run through the built binary with the input piped in
+    #[serde(default)]
+    pub stdin_input: u8,
 }
 
 pub fn gen_cli(rng: &mut Rng, prop: &str) -> CliCase {
@@ -165,6 +169,7 @@ pub fn gen_cli(rng: &mut Rng, prop: &str) -> CliCase {
         },
         schema_only: prop == "C19",
         via_binary: prop == "C16" && rng.chance(1, 10),
+        stdin_input: if rng.chance(1, 10) { 1 + rng.below(3) as u8 } else { 0 },
     }
 }
 
@@ -370,8 +375,16 @@ fn run_cli_inner(c: &CliCase, _st: &mut RunStats) -> Verdict {
         }
         None => None,
     };
-    let binary = if c.via_binary { std::env::var("VERIF_BIGTOOLS_BIN").ok().filter(|p| Path::new(p).exists()) } else { None };
-    let run_binary = |argv: &[String]| -> Result<(), String> {
+    let found_binary = std::env::var("VERIF_BIGTOOLS_BIN").ok().filter(|p| Path::new(p).exists());
+    // input on standard input needs a process of its own
+    let stdin_word = match (c.stdin_input, found_binary.is_some()) {
+        (1, true) => Some("-"),
+        (2, true) => Some("stdin"),
+        (3, true) => Some("/dev/stdin"),
+        _ => None,
+    };
+    let binary = if c.via_binary || stdin_word.is_some() { found_binary } else { None };
+    let run_binary = |argv: &[String], feed: Option<&Path>| -> Result<(), String> {
         // `bigtools <subcommand> <args>`: the tool name becomes the subcommand
         let bin = binary.as_ref().unwrap();
         // half of the time through a link named like the kent tool (dispatch on the program name, mixed case)
@@ -385,12 +398,25 @@ fn run_cli_inner(c: &CliCase, _st: &mut RunStats) -> Verdict {
         let link = dir.path().join(kent);
         let use_link = (c.nthreads as usize + c.read_threads as usize + c.chroms.len()) % 2 == 0
             && (link.exists() || std::os::unix::fs::symlink(bin, &link).is_ok());
-        let out = if use_link {
-            std::process::Command::new(&link).args(&argv[1..]).output()
+        let mut cmd = if use_link {
+            let mut cmd = std::process::Command::new(&link);
+            cmd.args(&argv[1..]);
+            cmd
         } else {
-            std::process::Command::new(bin).args(argv).output()
+            let mut cmd = std::process::Command::new(bin);
+            cmd.args(argv);
+            cmd
+        };
+        match feed {
+            Some(f) => {
+                let file = std::fs::File::open(f).map_err(|e| format!("HARNESS: cannot open {}: {}", f.display(), e))?;
+                cmd.stdin(std::process::Stdio::from(file));
+            }
+            None => {
+                cmd.stdin(std::process::Stdio::null());
+            }
         }
-        .map_err(|e| format!("cannot run {}: {}", bin, e))?;
+        let out = cmd.output().map_err(|e| format!("cannot run {}: {}", bin, e))?;
         if out.status.success() {
             Ok(())
         } else {
@@ -400,10 +426,19 @@ fn run_cli_inner(c: &CliCase, _st: &mut RunStats) -> Verdict {
     if binary.is_some() {
         *_st.counters.entry("via_multicall_binary(uncontrolled)".into()).or_insert(0) += 1;
     }
+    if stdin_word.is_some() {
+        *_st.counters.entry("input_on_stdin".into()).or_insert(0) += 1;
+    }
+    let (fwd_input, feed): (std::path::PathBuf, Option<&Path>) = match stdin_word {
+        Some(w) => (std::path::PathBuf::from(w), Some(input.as_path())),
+        None => (input.clone(), None),
+    };
     // forward conversion
     let r = match c.kind {
-        Kind::Wig if binary.is_some() => run_binary(&write_argv(c, "bedgraphtobigwig", &input, &sizes, &big, None)),
-        Kind::Bed if binary.is_some() => run_binary(&write_argv(c, "bedtobigbed", &input, &sizes, &big, sqlfile.as_deref())),
+        Kind::Wig if binary.is_some() => run_binary(&write_argv(c, "bedgraphtobigwig", &fwd_input, &sizes, &big, None), feed),
+        Kind::Bed if binary.is_some() => {
+            run_binary(&write_argv(c, "bedtobigbed", &fwd_input, &sizes, &big, sqlfile.as_deref()), feed)
+        }
         Kind::Wig => {
             let argv = write_argv(c, "bedgraphtobigwig", &input, &sizes, &big, None);
             match parse_args::<bigtools::utils::cli::bedgraphtobigwig::BedGraphToBigWigArgs>(&argv) {
@@ -469,8 +504,8 @@ fn run_cli_inner(c: &CliCase, _st: &mut RunStats) -> Verdict {
     }
     // back conversion
     let r = match c.kind {
-        Kind::Wig if binary.is_some() => run_binary(&read_argv(c, "bigwigtobedgraph", &big, &back)),
-        Kind::Bed if binary.is_some() => run_binary(&read_argv(c, "bigbedtobed", &big, &back)),
+        Kind::Wig if c.via_binary && binary.is_some() => run_binary(&read_argv(c, "bigwigtobedgraph", &big, &back), None),
+        Kind::Bed if c.via_binary && binary.is_some() => run_binary(&read_argv(c, "bigbedtobed", &big, &back), None),
         Kind::Wig => {
             let argv = read_argv(c, "bigwigtobedgraph", &big, &back);
             match parse_args::<bigtools::utils::cli::bigwigtobedgraph::BigWigToBedGraphArgs>(&argv) {
@@ -569,6 +604,8 @@ pub fn shrink_cli(c: &CliCase) -> Vec<CliCase> {
         }
     };
     push(&|n| n.sched = Sched::Calm);
+    push(&|n| n.stdin_input = 0);
+    push(&|n| n.via_binary = false);
     push(&|n| n.nthreads = 1);
     push(&|n| n.read_threads = 1);
     push(&|n| n.ucsc_style = false);
